@@ -264,6 +264,10 @@ func checkFormat(c FormatCase) evid.Outcome {
 		if okPrefix && !missing {
 			o.Labels = append(o.Labels, "safe-format-refused")
 		}
+		if got.String() != "" {
+			// a value handed out together with the error is a TrustedResourceURL of a call that did not succeed
+			return evid.Viol("format %q with args %q failed (%v) and still returned the non-zero TrustedResourceURL %q", format, args, err, got.String())
+		}
 		return o
 	}
 	o.Labels = append(o.Labels, "succeeded")
@@ -333,6 +337,9 @@ func checkAppend(c AppendCase) evid.Outcome {
 		o.Labels = append(o.Labels, "failed")
 		if okPrefix {
 			o.Labels = append(o.Labels, "safe-base-refused")
+		}
+		if got.String() != "" {
+			return evid.Viol("appending %q to %q failed (%v) and still returned the non-zero TrustedResourceURL %q", suf, base, err, got.String())
 		}
 		return o
 	}
